@@ -268,6 +268,21 @@ package shard
 //@   callee (writecache.Cache).Delete
 //@   pureeffect
 //@   defines cacheDropAttempted()
+// (C09) ... and not merely attempted: reads are served from the write-cache before the metabase
+// is asked whether the object exists (fetchObjectData), so a cached copy that outlives its
+// metadata is a removed object that is readable again - and the flush loop stores it anew.
+// cacheCopyLeft(0): some requested id's cached copy may still be there (its removal failed
+// with anything but "not found").
+//@ ghost field cacheCopyLeft(x int) bool
+//@ callrule c09_cache_drop_verdict in (*Shard).deleteObjs
+//@   property C09
+//@   callee (writecache.Cache).Delete
+//@   assigns cacheCopyLeft
+//@   defines cacheCopyLeft(0) == (old(cacheCopyLeft(0)) || (err != nil && !errIs(err, apistatus.ErrObjectNotFound)))
+//@ callrule c09_metadata_removed_only_without_a_cached_copy in (*Shard).deleteObjs
+//@   property C09
+//@   callee (*metabase.DB).Delete
+//@   requires [no_cached_copy_outlives_the_metadata] !cacheCopyLeft(0)
 //@ callrule c09_metadata_removal in (*Shard).deleteObjs
 //@   property C09, C15
 //@   callee (*metabase.DB).Delete
@@ -292,6 +307,10 @@ package shard
 //@   property C09, C15
 //@   callee (*shard.Shard).addObjectCounter, (*shard.Shard).addToContainerSize, (*shard.Shard).addToPayloadCounter, shard.logOp, id.NewAddress, (id.ID).*, (mode.Mode).*
 //@   pureeffect
+//@ func (*Shard).deleteObjs
+//@   property C09
+//@   valid !cacheCopyLeft(0)
+//@   loop 1 invariant [every_cached_copy_so_far_is_gone] !cacheCopyLeft(0)
 //@ func (*Shard).deleteObjs
 //@   property C09, C15
 //@   loop 1 invariant rangeindex >= 0 ==> cacheDropAttempted()
